@@ -64,36 +64,19 @@ def _coord(outer, inner, lean_name):
                     doc=f"`{outer}.{inner}(peak, {coordvar})`")
 
 
-@fragment("Crop", "crop_coord_y")
+@fragment("Crop", "crop_cell")
 def _():
-    return _coord("crop_disks_from_frame", "frame_coord_y", "crop_coord_y")
-
-
-@fragment("Crop", "crop_coord_x")
-def _():
-    return _coord("crop_disks_from_frame", "frame_coord_x", "crop_coord_x")
-
-
-def _coord_call_subst(prefix):
-    """`frame_coord_y(peak, e)` -> `(crop_coord_y crop_size peak0 peak1 e)` as a rewriting env hook."""
-    return prefix
-
-
-class CropEnv(Env):
-    """Env that understands calls to the nested coordinate helpers and frame[yy, xx]."""
-    prefix = "crop"
-
-    def copy(self):
-        e = type(self)(self.subst, self.vars, self.default)
-        e.counter = self.counter
-        return e
+    """the per-pixel back-end as a function of one buffer cell (whole-kernel translation, see kernels.py): local helper
+    functions are inlined, names are free, either branch order of the final if/else is accepted"""
+    import kernels as K
+    return K.cell_kernel_def(
+        BC, "crop_disks_from_frame", "crop_cell",
+        "value written to `out_crop_bufs[i, y, x]` by `crop_disks_from_frame` for peak `(peak0, peak1)`; the loops run over "
+        "`range(len(peaks))`, `range(shape[1])`, `range(shape[2])` (checked by the translator)")
 
 
 def tr_crop(node, env, prefix):
-    """tr() extended with frame_coord_y/x(peak, e) calls, out_crop_bufs.shape[k] and frame[a, b]."""
-    class T(ast.NodeTransformer):
-        pass
-    # pre-translate helper calls into fresh substitution entries
+    """tr() extended with frame_coord_y/x(peak, e) calls of the slicing back-end"""
     for sub in ast.walk(node):
         if isinstance(sub, ast.Call) and isinstance(sub.func, ast.Name) \
                 and sub.func.id in ("frame_coord_y", "frame_coord_x"):
@@ -105,77 +88,6 @@ def tr_crop(node, env, prefix):
             name = f"{prefix}_coord_" + sub.func.id[-1]
             env.subst[ast.unparse(sub)] = (f"({name} crop_size peak0 peak1 {inner})", INT)
     return tr(node, env)
-
-
-@fragment("Crop", "crop_cell")
-def _():
-    fn = find_def(BC, "crop_disks_from_frame")
-    loops = for_loops(fn)
-    if len(loops) != 3:
-        raise Untranslatable(f"expected 3 nested loops, found {len(loops)}")
-    want = [("i", "range(len(peaks))"), ("y", "range(out_crop_bufs.shape[1])"),
-            ("x", "range(out_crop_bufs.shape[2])")]
-    for lp, (v, it) in zip(loops, want):
-        if ast.unparse(lp.target) != v or ast.unparse(lp.iter) != it:
-            raise Untranslatable(f"loop `for {ast.unparse(lp.target)} in {ast.unparse(lp.iter)}`"
-                                 f" is not `for {v} in {it}`")
-    # fy, fx = frame.shape must precede the loops
-    pre = [ast.unparse(s) for s in stmts_of(fn) if not isinstance(s, (ast.For, ast.FunctionDef))]
-    if [p.replace("(", "").replace(")", "") for p in pre] != ["fy, fx = frame.shape"]:
-        raise Untranslatable(f"unexpected prologue {pre}")
-    env = Env(subst=dict(CROP_SUBST),
-              vars={n: (n, INT) for n in ("fy", "fx", "crop_size", "peak0", "peak1", "y", "x")})
-    for n in ("fy", "fx", "crop_size", "peak0", "peak1", "y", "x"):
-        env.counter[n] = 1
-    lines = []
-    # statements in loop order: i-body (before y loop), y-body (before x loop), x-body
-    seq = []
-    for lp in loops:
-        for s in lp.body:
-            if isinstance(s, ast.For):
-                break
-            seq.append(s)
-        tail = [s for s in lp.body if not isinstance(s, ast.For)]
-        if len(tail) != len([s for s in seq if s in lp.body]):
-            raise Untranslatable("statements after an inner loop")
-    final = seq[-1]
-    for s in seq[:-1]:
-        if ast.unparse(s) == "peak = peaks[i]":
-            continue
-        if not isinstance(s, ast.Assign) or len(s.targets) != 1 or not isinstance(s.targets[0], ast.Name):
-            raise Untranslatable(f"statement `{ast.unparse(s)}` in crop kernel")
-        txt, t = tr_crop(s.value, env, "crop")
-        ln = env.fresh(s.targets[0].id)
-        lines.append(f"let {ln} : {t} := {txt}")
-        env.vars[s.targets[0].id] = (ln, t)
-    if not isinstance(final, ast.If) or len(final.body) != 1 or len(final.orelse) != 1:
-        raise Untranslatable("last statement of the crop kernel is not if/else")
-    tr_crop(final.test, env, "crop")  # registers helper-call substitutions
-    from trcore import tr_prop
-    cond = tr_prop(final.test, env)
-
-    def cell_value(st):
-        if not isinstance(st, ast.Assign) or ast.unparse(st.targets[0]) != "out_crop_bufs[i, y, x]":
-            raise Untranslatable(f"store `{ast.unparse(st)}` is not to out_crop_bufs[i, y, x]")
-        v = st.value
-        if isinstance(v, ast.Constant) and v.value == 0:
-            return "(0 : α)"
-        if isinstance(v, ast.Subscript) and ast.unparse(v.value) == "frame" \
-                and isinstance(v.slice, ast.Tuple) and len(v.slice.elts) == 2:
-            a, ta = tr_crop(v.slice.elts[0], env, "crop")
-            b, tb = tr_crop(v.slice.elts[1], env, "crop")
-            if ta != INT or tb != INT:
-                raise Untranslatable("frame index type")
-            return f"frame {a} {b}"
-        raise Untranslatable(f"stored value `{ast.unparse(v)}`")
-    v1, v2 = cell_value(final.body[0]), cell_value(final.orelse[0])
-    ret = f"if {cond} then {v1} else {v2}"
-    hdr = ("/-- value written to `out_crop_bufs[i, y, x]` by `crop_disks_from_frame` for peak "
-           "`(peak0, peak1)`; the loops run over `range(len(peaks))`, `range(shape[1])`, "
-           "`range(shape[2])` (checked by the translator) -/\n")
-    body = "\n".join("  " + ln for ln in lines + [ret])
-    return (hdr + "def crop_cell {α : Type} [OfNat α 0] (frame : Int → Int → α) "
-            "(fy fx crop_size peak0 peak1 y x : Int) : α :=\n" + body + "\n")
 
 
 @fragment("Crop", "sl_coord_y")
